@@ -1,14 +1,25 @@
-(* Panic-freedom of the stream model on the documented parameter domain (closes the completion
-   hypothesis of C09_steps_then_close for ALL pipelines of [dom], faults included).
+(* Panic-freedom of the stream model on the documented parameter domain when neither a callback
+   nor a source panics, and C09 for ALL pipelines, panics included (a panicking step is
+   recovered by the consumer and the run goes on: no run is cut short any more).
 
-   The only statement of /repo/stream/stream.go that can panic is `make([]T, 0, chunkSize)` in
-   chunkStream.Next (a negative size); the model answers [Pan] exactly there.  [sdom] says that
-   every Chunk node of a state has a size >= 1; it is invariant under every call - whatever the
-   sources answer (items, transient or fatal errors, the end), whether callbacks fail and whether
-   the context is expired - and no call on an [sdom] state answers [Pan]. *)
+   The only statement of /repo/stream/stream.go that can panic by itself is
+   `make([]T, 0, chunkSize)` in chunkStream.Next (a negative size); the model answers [Pan]
+   there, when a callback panics and when a scripted source panics.  [sdom] says that every
+   Chunk node of a state has a size >= 1, that no callback ever panics and that no script has an
+   EvPanic event; it is invariant under every call - whatever the sources answer (items,
+   transient or fatal errors, the end), whether callbacks return errors and whether the context
+   is expired - and no call on an [sdom] state answers [Pan]. *)
 From Juniper Require Import Common.Base Iter.Syntax Iter.Config Iter.ModelBase Iter.IterModel
   Iter.StreamModel Iter.Spec Iter.Contract Iter.IterProofs Iter.StreamProofs Iter.Events
-  Iter.StreamEvents.
+  Iter.StreamEvents Iter.StreamFatal Iter.Reducers Iter.SReducers.
+
+(* a callback that never panics fails by returning its error *)
+Lemma fail_res_np {A} fl calls :
+  cb_panics fl = false -> fails_now fl calls = true -> @fail_res A fl <> Pan.
+Proof.
+  unfold cb_panics, fails_now, fail_res. destruct (fail_panic fl); [|discriminate].
+  destruct (fail_at fl); simpl; discriminate.
+Qed.
 
 Lemma pass_np {A B} (o : res A) : o <> Pan -> @pass A B o <> Pan.
 Proof. destruct o; simpl; congruence. Qed.
@@ -50,14 +61,15 @@ Section GenericNoPanic.
       simpl in Hc. inv_ret Hc. exact (IH _ _ _ _ _ _ _ _ Hi1 E2).
   Qed.
 
-  Lemma sfilter_np n keep fl : forall calls s o calls' s' ev,
+  Lemma sfilter_np n keep fl : cb_panics fl = false -> forall calls s o calls' s' ev,
     inv s -> sfilter nx n keep fl calls s = (o, (calls', s'), ev) -> inv s' /\ o <> Pan.
   Proof.
-    induction n as [|n IH]; intros calls s o calls' s' ev Hi Hc; simpl in Hc.
+    intros Hfl. induction n as [|n IH]; intros calls s o calls' s' ev Hi Hc; simpl in Hc.
     - inv_ret Hc. npsolve.
     - destruct (nx s) as [[o1 s1] ev1] eqn:E. destruct (Hnx _ _ _ _ Hi E) as [Hi1 Hn1].
       destruct o1 as [x| | | |]; try (inv_ret Hc; npsolve; fail).
-      destruct (fails_now fl calls); [inv_ret Hc; npsolve|].
+      destruct (fails_now fl calls) eqn:Ef;
+        [inv_ret Hc; split; [exact Hi1|exact (fail_res_np fl calls Hfl Ef)]|].
       destruct (pred_eval keep x); [inv_ret Hc; npsolve|].
       destruct (sfilter nx n keep fl (S calls) s1) as [[o2 [c2 s2]] ev2] eqn:E2.
       simpl in Hc. inv_ret Hc. exact (IH _ _ _ _ _ _ Hi1 E2).
@@ -72,27 +84,31 @@ Section GenericNoPanic.
       intros Hc. destruct o1; inv_ret Hc; npsolve.
   Qed.
 
-  Lemma smap_np f fl calls s o calls' s' ev :
+  Lemma smap_np f fl calls s o calls' s' ev : cb_panics fl = false ->
     inv s -> smap nx f fl calls s = (o, (calls', s'), ev) -> inv s' /\ o <> Pan.
   Proof.
-    unfold smap. intros Hi.
+    unfold smap. intros Hfl Hi.
     destruct (nx s) as [[o1 s1] ev1] eqn:E. destruct (Hnx _ _ _ _ Hi E) as [Hi1 Hn1].
     intros Hc. destruct o1 as [x| | | |]; try (inv_ret Hc; npsolve; fail).
-    destruct (fails_now fl calls); inv_ret Hc; npsolve.
+    destruct (fails_now fl calls) eqn:Ef; inv_ret Hc;
+      [split; [exact Hi1|exact (fail_res_np fl calls Hfl Ef)]|npsolve].
   Qed.
 
   Lemma swhile_np f fl calls item has done s o calls' item' has' done' s' ev :
+    cb_panics fl = false ->
     inv s -> swhile nx f fl calls item has done s = (o, (calls', item', has', done', s'), ev) ->
     inv s' /\ o <> Pan.
   Proof.
-    unfold swhile. intros Hi. destruct done.
+    unfold swhile. intros Hfl Hi. destruct done.
     - intros Hc. inv_ret Hc. npsolve.
     - destruct has.
-      + destruct (fails_now fl calls); [intros Hc; inv_ret Hc; npsolve|].
+      + destruct (fails_now fl calls) eqn:Ef;
+          [intros Hc; inv_ret Hc; split; [exact Hi|exact (fail_res_np fl calls Hfl Ef)]|].
         destruct (pred_eval f item); intros Hc; inv_ret Hc; npsolve.
       + destruct (nx s) as [[o1 s1] ev1] eqn:E. destruct (Hnx _ _ _ _ Hi E) as [Hi1 Hn1].
         destruct o1 as [x| | | |]; try (intros Hc; inv_ret Hc; npsolve; fail).
-        destruct (fails_now fl calls); [intros Hc; inv_ret Hc; npsolve|].
+        destruct (fails_now fl calls) eqn:Ef;
+          [intros Hc; inv_ret Hc; split; [exact Hi1|exact (fail_res_np fl calls Hfl Ef)]|].
         destruct (pred_eval f x); intros Hc; inv_ret Hc; npsolve.
   Qed.
 
@@ -257,13 +273,17 @@ Section GenericNoPanicFS.
   Qed.
 End GenericNoPanicFS.
 
-(* ---- states of the documented domain: every Chunk node has size >= 1 ---- *)
+(* ---- states of the documented domain in which nothing panics: every Chunk node has
+   size >= 1, no callback panics, no script has an EvPanic ---- *)
+Definition ssrc_nopanic (s : ssrc) : bool :=
+  match s with SSIter _ => true | SSScript evs | SSScriptNC evs => script_nopanic evs end.
+
 Fixpoint sdom (s : sst) : Prop :=
   match s with
-  | TSrc _ _ => True
+  | TSrc _ src => ssrc_nopanic src = true
   | TPeek p => sdom (pk_in p)
-  | TCompact _ _ _ p | TFilter _ _ _ p | TFirst _ p | TMap _ _ _ p | TWhile _ _ _ _ _ _ p =>
-      sdom p
+  | TCompact _ _ _ p | TFirst _ p => sdom p
+  | TFilter _ fl _ p | TMap _ fl _ p | TWhile _ fl _ _ _ _ p => cb_panics fl = false /\ sdom p
   | TFlatten rest curr =>
       all_p sdom rest /\ match curr with Some c => sdom c | None => True end
   | TJoin rem => all_p sdom rem
@@ -275,25 +295,32 @@ with sldom (q : slst) : Prop :=
   | TRuns _ _ _ _ p => sdom (pk_in p)
   end.
 
-(* no source panics, whether or not it looks at the context *)
-Lemma script_next_no_pan evs o evs' : script_next evs = (o, evs') -> o <> Pan.
+(* a source without EvPanic does not panic, whether or not it looks at the context *)
+Lemma script_next_no_pan evs o evs' :
+  script_nopanic evs = true -> script_next evs = (o, evs') ->
+  script_nopanic evs' = true /\ o <> Pan.
 Proof.
-  destruct evs as [|[y|e|e] t]; simpl; intros E; injection E as ? ?; subst; discriminate.
+  unfold script_nopanic.
+  destruct evs as [|[y|e|e|] t]; simpl; intros Hnp E; injection E as ? ?; subst;
+    try (split; [assumption|discriminate]). discriminate Hnp.
 Qed.
-Lemma ssrc_next_no_pan live src o src' : ssrc_next live src = (o, src') -> o <> Pan.
+Lemma ssrc_next_no_pan live src o src' :
+  ssrc_nopanic src = true -> ssrc_next live src = (o, src') ->
+  ssrc_nopanic src' = true /\ o <> Pan.
 Proof.
-  unfold ssrc_next. intros E. destruct src as [i|evs|evs].
-  - destruct (negb live); [injection E as ? ?; subst; discriminate|].
-    destruct (isrc_next i) as [[y|] i']; injection E as ? ?; subst; discriminate.
-  - destruct (negb live); [injection E as ? ?; subst; discriminate|].
+  unfold ssrc_next. intros Hnp E. destruct src as [i|evs|evs]; simpl in Hnp.
+  - destruct (negb live); [injection E as ? ?; subst; split; [reflexivity|discriminate]|].
+    destruct (isrc_next i) as [[y|] i']; injection E as ? ?; subst;
+      (split; [reflexivity|discriminate]).
+  - destruct (negb live); [injection E as ? ?; subst; split; [exact Hnp|discriminate]|].
     destruct (script_next evs) as [o1 evs1] eqn:E1. injection E as ? ?; subst.
-    exact (script_next_no_pan _ _ _ E1).
+    exact (script_next_no_pan _ _ _ Hnp E1).
   - destruct (script_next evs) as [o1 evs1] eqn:E1. injection E as ? ?; subst.
-    exact (script_next_no_pan _ _ _ E1).
+    exact (script_next_no_pan _ _ _ Hnp E1).
 Qed.
 
-(* the master theorem: on [sdom] states no call panics, whatever the sources and callbacks do
-   and whether or not the context is live; [sdom] is preserved *)
+(* the master theorem: on [sdom] states no call panics, whatever else the sources and callbacks
+   do and whether or not the context is live; [sdom] is preserved *)
 Theorem snext_no_panic live : forall f,
   (forall s o s' ev, sdom s -> snext f live s = (o, s', ev) -> sdom s' /\ o <> Pan) /\
   (forall q o q' ev, sldom q -> slnext f live q = (o, q', ev) -> sldom q' /\ o <> Pan).
@@ -303,15 +330,17 @@ Proof.
   - split; intros s o s' ev Hd Hc.
     + destruct s as [id src|p|r first prev p|keep fl calls p|x p|rest curr|rem|g fl calls p
                     |g fl calls item has done p|b q]; cbn [snext] in Hc; cbn [sdom sldom] in Hd.
-      * destruct (ssrc_next live src) as [o1 src'] eqn:E. inv_ret Hc. split; [exact I|].
-        exact (ssrc_next_no_pan _ _ _ _ E).
+      * destruct (ssrc_next live src) as [o1 src'] eqn:E. inv_ret Hc.
+        exact (ssrc_next_no_pan _ _ _ _ Hd E).
       * destruct (ipk_next (snext f live) p) as [[o1 p1] ev1] eqn:E. inv_ret Hc.
         exact (ipk_next_np _ _ IHz _ _ _ _ Hd E).
       * destruct (icompact (snext f live) (S f) r first prev p)
           as [[o1 [[f1 pr1] p1]] ev1] eqn:E.
         inv_ret Hc. exact (icompact_np _ _ IHz _ _ _ _ _ _ _ _ _ _ Hd E).
       * destruct (sfilter (snext f live) (S f) keep fl calls p) as [[o1 [c1 p1]] ev1] eqn:E.
-        inv_ret Hc. exact (sfilter_np _ _ IHz _ _ _ _ _ _ _ _ _ Hd E).
+        inv_ret Hc. destruct Hd as [Hfl Hd].
+        destruct (sfilter_np _ _ IHz _ _ _ Hfl _ _ _ _ _ _ Hd E) as [Ha Hn].
+        split; [split; [exact Hfl|exact Ha]|exact Hn].
       * destruct (sfirst (snext f live) x p) as [[o1 [x1 p1]] ev1] eqn:E. inv_ret Hc.
         exact (sfirst_np _ _ IHz _ _ _ _ _ _ Hd E).
       * destruct (sflatten (snext f live) sclose (S f) live rest curr)
@@ -324,10 +353,14 @@ Proof.
         destruct (sjoin_np _ sclose _ IHz _ _ _ _ _ Hd E) as [Ha Hn].
         split; [apply all_p_Forall; exact Ha|exact Hn].
       * destruct (smap (snext f live) g fl calls p) as [[o1 [c1 p1]] ev1] eqn:E. inv_ret Hc.
-        exact (smap_np _ _ IHz _ _ _ _ _ _ _ _ Hd E).
+        destruct Hd as [Hfl Hd].
+        destruct (smap_np _ _ IHz _ _ _ _ _ _ _ _ Hfl Hd E) as [Ha Hn].
+        split; [split; [exact Hfl|exact Ha]|exact Hn].
       * destruct (swhile (snext f live) g fl calls item has done p)
           as [[o1 [[[[c1 i1] h1] d1] p1]] ev1] eqn:E.
-        inv_ret Hc. exact (swhile_np _ _ IHz _ _ _ _ _ _ _ _ _ _ _ _ _ _ Hd E).
+        inv_ret Hc. destruct Hd as [Hfl Hd].
+        destruct (swhile_np _ _ IHz _ _ _ _ _ _ _ _ _ _ _ _ _ _ Hfl Hd E) as [Ha Hn].
+        split; [split; [exact Hfl|exact Ha]|exact Hn].
       * destruct (iflatslices (slnext f live) (S f) b q) as [[o1 [b1 q1]] ev1] eqn:E.
         inv_ret Hc. exact (iflatslices_np _ _ IHl _ _ _ _ _ _ _ Hd E).
     + destruct s as [size chunk p|r k cur pend p]; cbn [slnext] in Hc; cbn [sdom sldom] in Hd.
@@ -339,27 +372,35 @@ Proof.
         inv_ret Hc. exact (sruns_np _ _ IHz _ _ _ _ _ _ _ _ _ _ _ Hd E).
 Qed.
 
-(* initial states of pipelines of the documented domain *)
+(* initial states of pipelines of the documented domain in which nothing panics *)
 Lemma sinit_dom :
-  (forall p, dom_z p -> sdom (sinit p)) /\ (forall q, dom_l q -> sldom (slinit q)).
+  (forall p, dom_z p -> no_panics_z p = true -> sdom (sinit p)) /\
+  (forall q, dom_l q -> no_panics_l q = true -> sldom (slinit q)).
 Proof.
   apply pipe_ind; simpl; intros; auto.
+  - destruct s; simpl in *; auto.
+  - destruct (cb_ok_split _ _ H1); auto.
   - split; [|exact I]. induction H as [|x t Hx Ht IH]; simpl in *; [exact I|].
-    destruct H0 as [H1 H2]. split; auto.
+    destruct H0 as [H2 H3]. apply andb_true_iff in H1. destruct H1 as [H4 H5]. split; auto.
   - induction H as [|x t Hx Ht IH]; simpl in *; [exact I|].
-    destruct H0 as [H1 H2]. split; auto.
-  - destruct H0 as [H1 H2]. split; [lia|auto].
+    destruct H0 as [H2 H3]. apply andb_true_iff in H1. destruct H1 as [H4 H5]. split; auto.
+  - destruct (cb_ok_split _ _ H1); auto.
+  - destruct (cb_ok_split _ _ H1); auto.
+  - destruct H0 as [H2 H3]. split; [lia|auto].
 Qed.
 
 Definition sstate_dom (s : srun_st) : Prop :=
   match s with QZ s => sdom s | QL q => sldom q end.
 
-Lemma srun_init_dom p : dom p -> sstate_dom (srun_init p).
+Lemma srun_init_dom p : dom p -> no_panics p = true -> sstate_dom (srun_init p).
 Proof. destruct p as [p|q]; simpl; [apply (proj1 sinit_dom)|apply (proj2 sinit_dom)]. Qed.
+
+(* the observations that are neither a panic nor RBad *)
+Definition calm (r : robs) : bool := match r with RPanic | RBad => false | _ => true end.
 
 (* one consumer step: neither a panic nor fuel exhaustion *)
 Lemma srun_next_dom live s o s' ev :
-  sstate_dom s -> srun_next live s = (o, s', ev) -> sstate_dom s' /\ stops o = false.
+  sstate_dom s -> srun_next live s = (o, s', ev) -> sstate_dom s' /\ calm o = true.
 Proof.
   intros Hd Hc. destruct s as [s|q]; simpl in *.
   - destruct (sstep live s) as [[o1 s1] ev1] eqn:E. inv_ret Hc.
@@ -372,16 +413,19 @@ Proof.
     split; [exact Hd1|]. destruct o1; simpl; congruence.
 Qed.
 
+Lemma calm_goes_on o : calm o = true -> stops o = false.
+Proof. destruct o; simpl; congruence. Qed.
+
 (* no result of a run is a panic (or RBad) *)
 Lemma srun_steps_no_panic ids : forall ops s log,
   sstate_dom s ->
-  Forall (fun so => stops (so_res so) = false) (fst (srun_steps ids s log ops)) /\
+  Forall (fun so => calm (so_res so) = true) (fst (srun_steps ids s log ops)) /\
   length (fst (srun_steps ids s log ops)) = length ops.
 Proof.
   induction ops as [|op ops IH]; intros s log Hd; simpl; [split; [constructor|reflexivity]|].
   destruct op as [live|].
   - destruct (srun_next live s) as [[o s1] ev1] eqn:E.
-    destruct (srun_next_dom _ _ _ _ _ Hd E) as [Hd1 Hst]. rewrite Hst.
+    destruct (srun_next_dom _ _ _ _ _ Hd E) as [Hd1 Hst]. rewrite (calm_goes_on _ Hst).
     destruct (IH s1 (log ++ ev1) Hd1) as [IH1 IH2].
     destruct (srun_steps ids s1 (log ++ ev1) ops) as [r l]. simpl in *.
     split; [constructor; [exact Hst|exact IH1]|rewrite IH2; reflexivity].
@@ -390,32 +434,50 @@ Proof.
     split; [constructor; [reflexivity|exact IH1]|rewrite IH2; reflexivity].
 Qed.
 
-(* every consumer program on a pipeline of the documented domain runs to its end: one
-   observation per operation, none of them a panic *)
+(* every consumer program on a pipeline of the documented domain in which no callback and no
+   source panics runs to its end: one observation per operation, none of them a panic *)
 Theorem stream_steps_no_panic cfg p ops :
-  dom p ->
+  dom p -> no_panics p = true ->
   let run := run_stream_cfg cfg p (Steps ops) in
   length (ro_steps run) = length ops /\ ~ In RPanic (map so_res (ro_steps run)).
 Proof.
-  intros Hd run. unfold run, run_stream_cfg.
+  intros Hd Hnp run. unfold run, run_stream_cfg.
   destruct (srun_steps_no_panic (sort_ids (pipe_ids p)) ops (srun_init p) []
-              (srun_init_dom p Hd)) as [H1 H2].
+              (srun_init_dom p Hd Hnp)) as [H1 H2].
   destruct (srun_steps (sort_ids (pipe_ids p)) (srun_init p) [] ops) as [steps log].
   simpl in *. split; [exact H2|].
   intros Hin. apply in_map_iff in Hin. destruct Hin as (so & Hso & Hi).
   rewrite Forall_forall in H1. specialize (H1 so Hi). rewrite Hso in H1. discriminate.
 Qed.
 
+(* every run completes - on every pipeline, whatever panics (SReducers.v) *)
+Theorem stream_steps_complete_any cfg p lives :
+  length (ro_steps (run_stream_cfg cfg p (Steps (map CNext lives ++ [CClose]))))
+  = S (length lives).
+Proof.
+  rewrite stream_steps_complete_all, app_length, map_length. simpl. lia.
+Qed.
+
+(* C09 without the completion hypothesis, for EVERY pipeline: any faults, callbacks and sources
+   that panic included - after the consumer has recovered the panics and called Close, every
+   owned source has been closed exactly once and nothing was used after its Close *)
+Theorem stream_close_steps_any cfg p lives :
+  NoDup (pipe_ids p) ->
+  let L := ro_log (run_stream_cfg cfg p (Steps (map CNext lives ++ [CClose]))) in
+  log_ok L /\
+  (forall id, In id (pipe_owned p) -> count_close id L = 1%nat) /\
+  (forall id, In id (tids L) -> count_close id L = 1%nat) /\
+  incl (tids L) (pipe_ids p).
+Proof.
+  intros Hn. apply (stream_close_steps cfg p lives Hn). apply stream_steps_complete_any.
+Qed.
+
 Theorem stream_steps_complete_dom cfg p lives :
   dom p ->
   length (ro_steps (run_stream_cfg cfg p (Steps (map CNext lives ++ [CClose]))))
   = S (length lives).
-Proof.
-  intros Hd. destruct (stream_steps_no_panic cfg p (map CNext lives ++ [CClose]) Hd) as [H _].
-  rewrite H, app_length, map_length. simpl. lia.
-Qed.
+Proof. intros _. apply stream_steps_complete_any. Qed.
 
-(* C09 without the completion hypothesis, for every pipeline of the documented domain *)
 Theorem stream_close_steps_dom cfg p lives :
   dom p -> NoDup (pipe_ids p) ->
   let L := ro_log (run_stream_cfg cfg p (Steps (map CNext lives ++ [CClose]))) in
@@ -423,23 +485,39 @@ Theorem stream_close_steps_dom cfg p lives :
   (forall id, In id (pipe_owned p) -> count_close id L = 1%nat) /\
   (forall id, In id (tids L) -> count_close id L = 1%nat) /\
   incl (tids L) (pipe_ids p).
-Proof.
-  intros Hd Hn. apply (stream_close_steps cfg p lives Hn).
-  apply stream_steps_complete_dom. exact Hd.
-Qed.
+Proof. intros _ Hn. apply stream_close_steps_any. exact Hn. Qed.
 
 (* ---- reducers: Collect, Reduce, One never panic on the documented domain; Last does not
    either when its n is >= 1 or the guard of the repaired configuration is on ---- *)
-Lemma sreduce_loop_np {A} n live (f : A -> Z -> A) : forall acc s o s' ev,
+Lemma sreduce_loop_np {A} n live (f : A -> Z -> cbres A) :
+  (forall a x, f a x <> CbPanic) -> forall acc s o s' ev,
   sdom s -> sreduce_loop n live f acc s = (o, s', ev) -> sdom s' /\ o <> Pan.
 Proof.
-  induction n as [|n IH]; intros acc s o s' ev Hd Hc; simpl in Hc.
+  intros Hf. induction n as [|n IH]; intros acc s o s' ev Hd Hc; simpl in Hc.
   - inv_ret Hc. npsolve.
   - destruct (sstep live s) as [[o1 s1] ev1] eqn:E.
     destruct (proj1 (snext_no_panic live _) _ _ _ _ Hd E) as [Hd1 Hn1].
     destruct o1 as [x| | | |]; try (inv_ret Hc; npsolve; fail).
-    destruct (sreduce_loop n live f (f acc x) s1) as [[o2 s2] ev2] eqn:E2.
+    destruct (f acc x) as [acc'|e|] eqn:Ef; [|inv_ret Hc; npsolve|destruct (Hf _ _ Ef)].
+    destruct (sreduce_loop n live f acc' s1) as [[o2 s2] ev2] eqn:E2.
     simpl in Hc. inv_ret Hc. exact (IH _ _ _ _ _ Hd1 E2).
+Qed.
+
+Lemma collect_step_np : forall (a : list Z) (x : Z), CbOk (a ++ [x]) <> @CbPanic (list Z).
+Proof. intros; discriminate. Qed.
+Lemma unit_step_np : forall (u : unit) (x : Z), CbOk u <> @CbPanic unit.
+Proof. intros; discriminate. Qed.
+Lemma ssum_step_np fl : cb_panics fl = false -> forall a x, ssum_step fl a x <> CbPanic.
+Proof.
+  intros Hfl a x. destruct (ssum_step_nopanic fl Hfl a x) as [H|[e H]]; rewrite H; discriminate.
+Qed.
+
+(* closing does not change the result *)
+Lemma reducer_close_fst cfg {A} (x : ret A sst) :
+  fst (fst (reducer_close cfg x)) = fst (fst x).
+Proof.
+  destruct x as [[o s'] ev]. destruct (reducer_close_res cfg o s' ev) as [ev' H]. rewrite H.
+  reflexivity.
 Qed.
 
 Lemma sone_body_np live s o s' ev :
@@ -482,31 +560,38 @@ Qed.
 Definition reducer_dom (cfg : config) (r : reducer) : Prop :=
   match r with
   | RLast n => cfg_last_guard cfg = true \/ 1 <= n
+  | RSum fl => cb_panics fl = false
   | _ => True
   end.
 
-(* no reducer of package stream panics on the documented domain, whatever fails *)
+(* no reducer of package stream panics on the documented domain when no callback (the
+   reduction function included) and no source panics, whatever else fails *)
 Theorem stream_reduce_no_panic cfg z r live :
-  dom_z z -> reducer_dom cfg r ->
+  dom_z z -> no_panics_z z = true -> reducer_dom cfg r ->
   map so_res (ro_steps (run_stream_cfg cfg (inl z) (Reduce r live))) <> [RPanic].
 Proof.
-  intros Hd Hr. pose proof (proj1 sinit_dom z Hd) as Hs.
+  intros Hd Hnp Hr. pose proof (proj1 sinit_dom z Hd Hnp) as Hs.
   assert (Hobs : forall o : res (list Z), o <> Pan -> obs_val o <> RPanic)
     by (intros o Ho; destruct o; simpl; congruence).
   unfold run_stream_cfg. destruct (srun_reduce cfg z r live) as [o log] eqn:E. simpl.
   intros Hx. injection Hx as Hx. subst o. revert E.
-  unfold srun_reduce. destruct r as [|n| | | |others]; simpl in Hr.
-  - unfold scollect, sreduce, deferred_close.
-    destruct (sreduce_loop (sred_fuel (sinit z)) live (fun out x => out ++ [x]) [] (sinit z))
+  unfold srun_reduce. destruct r as [|n| |fl| |others]; simpl in Hr.
+  - unfold scollect, sreduce.
+    destruct (sreduce_loop (sred_fuel (sinit z)) live (fun out x => CbOk (out ++ [x])) []
+                           (sinit z))
       as [[o1 s1] ev1] eqn:E1.
-    destruct (sreduce_loop_np _ _ _ _ _ _ _ _ Hs E1) as [_ Hn].
+    destruct (sreduce_loop_np _ _ _ collect_step_np _ _ _ _ _ Hs E1) as [_ Hn].
+    destruct (reducer_close_res cfg o1 s1 ev1) as [ev' Hrc]. rewrite Hrc.
     intros Hc. apply (f_equal fst) in Hc. simpl in Hc. exact (Hobs _ Hn Hc).
-  - unfold slast, deferred_close.
+  - unfold slast.
     destruct (cfg_last_guard cfg && (n <=? 0)) eqn:Eg.
-    + destruct (sreduce_loop (sred_fuel (sinit z)) live (fun (u : unit) _ => u) tt (sinit z))
+    + destruct (sreduce_loop (sred_fuel (sinit z)) live (fun (u : unit) _ => CbOk u) tt (sinit z))
         as [[o1 s1] ev1] eqn:E1.
-      destruct (sreduce_loop_np _ _ _ _ _ _ _ _ Hs E1) as [_ Hn].
-      intros Hc. apply (f_equal fst) in Hc.
+      destruct (sreduce_loop_np _ _ _ unit_step_np _ _ _ _ _ Hs E1) as [_ Hn].
+      match goal with |- context [reducer_close cfg ?X] =>
+        pose proof (reducer_close_fst cfg X) as Hf;
+        destruct (reducer_close cfg X) as [[o2 s2] ev2] end.
+      simpl in Hf. intros Hc. apply (f_equal fst) in Hc. simpl in Hc. subst o2.
       destruct o1; simpl in Hc; try discriminate Hc. congruence.
     + assert (Hn : 1 <= n).
       { destruct Hr as [Hg|Hg]; [|exact Hg]. rewrite Hg in Eg. simpl in Eg.
@@ -517,16 +602,23 @@ Proof.
       assert (Hn0 : 0 <= n) by lia.
       pose proof (slast_loop_np _ _ _ Hn _ _ _ _ _ _ Hs (zlen_repeat 0 n Hn0)
                     (Z.le_refl 0) E1) as Hn1.
-      intros Hc. apply (f_equal fst) in Hc.
+      match goal with |- context [reducer_close cfg ?X] =>
+        pose proof (reducer_close_fst cfg X) as Hf;
+        destruct (reducer_close cfg X) as [[o2 s2] ev2] end.
+      simpl in Hf. intros Hc. apply (f_equal fst) in Hc. simpl in Hc. subst o2.
       destruct o1 as [[buf i]| | | |]; simpl in Hc; try discriminate Hc; try congruence.
       apply (Hobs _ (last_finish_np n buf i Hn) Hc).
-  - unfold sone. destruct (cfg_one_closes cfg); unfold deferred_close;
-      destruct (sone_body live (sinit z)) as [[o1 s1] ev1] eqn:E1;
-      pose proof (sone_body_np _ _ _ _ _ Hs E1) as Hn;
+  - unfold sone.
+    destruct (sone_body live (sinit z)) as [[o1 s1] ev1] eqn:E1.
+    pose proof (sone_body_np _ _ _ _ _ Hs E1) as Hn.
+    destruct (reducer_close_res cfg o1 s1 ev1) as [ev' Hrc].
+    destruct (cfg_one_closes cfg); rewrite ?Hrc;
       intros Hc; apply (f_equal fst) in Hc; simpl in Hc; exact (Hobs _ Hn Hc).
-  - unfold sreduce, deferred_close.
-    destruct (sreduce_loop (sred_fuel (sinit z)) live Z.add 0 (sinit z)) as [[o1 s1] ev1] eqn:E1.
-    destruct (sreduce_loop_np _ _ _ _ _ _ _ _ Hs E1) as [_ Hn].
+  - unfold sreduce.
+    destruct (sreduce_loop (sred_fuel (sinit z)) live (ssum_step fl) (O, 0) (sinit z))
+      as [[o1 s1] ev1] eqn:E1.
+    destruct (sreduce_loop_np _ _ _ (ssum_step_np fl Hr) _ _ _ _ _ Hs E1) as [_ Hn].
+    destruct (reducer_close_res cfg o1 s1 ev1) as [ev' Hrc]. rewrite Hrc.
     intros Hc. apply (f_equal fst) in Hc.
     destruct o1; simpl in Hc; try discriminate Hc. congruence.
   - intros Hc. discriminate Hc.
@@ -536,18 +628,99 @@ Qed.
 (* non-vacuity: a pipeline of the domain with a fatal source error, a failing callback and an
    expired context; the same pipeline with a negative chunk size panics *)
 Definition no_panic_demo_pipe : pz + pl :=
-  inr (LChunk 2 (ZMap (FnAffine 1 0) (mkFailing (Some 2%nat) 8)
+  inr (LChunk 2 (ZMap (FnAffine 1 0) (mkFailing (Some 2%nat) 8 false)
          (ZSrc 0 (SScript [EvItem 1; EvTransient 9; EvItem 2; EvItem 3; EvItem 4; EvFatal 7])))).
 Example no_panic_demo :
-  dom no_panic_demo_pipe /\
+  dom no_panic_demo_pipe /\ no_panics no_panic_demo_pipe = true /\
   map so_res (ro_steps (run_stream no_panic_demo_pipe
                           (Steps [CNext true; CNext false; CNext true; CNext true;
                                   CNext true; CNext true; CClose])))
   = [RErr 9; RErr (-1); RItem (IL [1; 2]); RErr 8; RErr 7; RErr 7; RUnit].
-Proof. split; [simpl; lia|vm_compute; reflexivity]. Qed.
+Proof. split; [simpl; lia|]. split; [reflexivity|vm_compute; reflexivity]. Qed.
 
+(* outside the domain Chunk panics (at every call that would hand out the chunk; the run goes on) *)
 Example panic_outside_dom :
   map so_res (ro_steps (run_stream (inr (LChunk (-1) (ZSrc 0 (SSlice [1]))))
                                    (Steps [CNext true; CNext true])))
-  = [RPanic].
+  = [RPanic; RPanic].
 Proof. vm_compute. reflexivity. Qed.
+
+(* ---- C09 under panics: non-vacuity, and the refutation of the breaking variant ---- *)
+Definition pan_fl (k : nat) : failing := mkFailing (Some k) 0 true.
+
+(* Collect over a Filter whose predicate panics at its 2nd invocation, over a Join: the panic
+   comes out of Collect (RPanic), the deferred Close has closed both sources exactly once *)
+Definition panic_filter_pipe : pz :=
+  ZFilter PrTrue (pan_fl 1) (ZJoin [ZSrc 0 (SSlice [1; 2; 3]); ZSrc 1 (SSlice [4])]).
+Example collect_panicking_filter :
+  NoDup (pz_ids panic_filter_pipe) /\ pz_owned panic_filter_pipe = [0; 1]%nat /\
+  no_panics_z panic_filter_pipe = false /\
+  run_stream_cfg fixed_cfg (inl panic_filter_pipe) (Reduce RCollect true)
+  = mkRunObs [mkStepObs RPanic [2; 0]] [SevNext 0; SevNext 0; SevClose 0; SevClose 1]%nat.
+Proof.
+  split; [repeat constructor; simpl; intuition discriminate|].
+  split; [reflexivity|]. split; [reflexivity|]. vm_compute. reflexivity.
+Qed.
+
+(* Reduce whose reduction function panics at its 3rd invocation *)
+Example reduce_panicking_function :
+  run_stream_cfg fixed_cfg (inl (ZSrc 0 (SSlice [1; 2; 3; 4]))) (Reduce (RSum (pan_fl 2)) true)
+  = mkRunObs [mkStepObs RPanic [3]] [SevNext 0; SevNext 0; SevNext 0; SevClose 0]%nat /\
+  closing_reducer fixed_cfg (RSum (pan_fl 2)) = true.
+Proof. split; [vm_compute; reflexivity|reflexivity]. Qed.
+
+(* a source whose Next panics under Last *)
+Example last_panicking_source :
+  run_stream_cfg fixed_cfg (inl (ZSrc 0 (SScript [EvItem 1; EvPanic; EvItem 2])))
+                 (Reduce (RLast 2) true)
+  = mkRunObs [mkStepObs RPanic [2]] [SevNext 0; SevNext 0; SevClose 0]%nat.
+Proof. vm_compute. reflexivity. Qed.
+
+(* a step program: the consumer recovers the panic of the 2nd Next, goes on and closes *)
+Example steps_panicking_filter :
+  run_stream (inl panic_filter_pipe) (Steps [CNext true; CNext true; CNext true; CClose])
+  = mkRunObs [mkStepObs (RItem (IZ 1)) [1; 0]; mkStepObs RPanic [2; 0];
+              mkStepObs (RItem (IZ 3)) [3; 0]; mkStepObs RUnit [3; 0]]
+             [SevNext 0; SevNext 0; SevNext 0; SevClose 0; SevClose 1]%nat.
+Proof. vm_compute. reflexivity. Qed.
+
+(* The breaking variant: the reducers call s.Close() explicitly before each return instead of
+   `defer s.Close()` (explicit_close_cfg).  The statement
+     Theorem C09_reducers_explicit_close : forall z r live,
+       r is Collect/Last/One/Reduce -> NoDup (pz_ids z) ->
+       forall id, In id (pz_owned z) ->
+       count_close id (ro_log (run_stream_cfg explicit_close_cfg (inl z) (Reduce r live))) = 1
+   is FALSE: a panicking reduction function (or callback, or source) leaves the source unclosed
+   after the caller has recovered the panic. *)
+Theorem stream_explicit_close_refuted :
+  exists z r live, NoDup (pz_ids z) /\
+    closing_reducer fixed_cfg r = true /\
+    let run := run_stream_cfg explicit_close_cfg (inl z) (Reduce r live) in
+    map so_res (ro_steps run) = [RPanic] /\
+    exists id, In id (pz_owned z) /\ count_close id (ro_log run) = 0%nat.
+Proof.
+  exists (ZSrc 0 (SSlice [1; 2; 3; 4])), (RSum (pan_fl 2)), true.
+  split; [repeat constructor; simpl; tauto|]. split; [reflexivity|].
+  split; [vm_compute; reflexivity|]. exists 0%nat. vm_compute. auto.
+Qed.
+
+(* the same for a panicking callback under Collect, a panicking source under Last, and One *)
+Theorem stream_explicit_close_refuted_others :
+  (exists id, In id (pz_owned panic_filter_pipe) /\
+     count_close id (ro_log (run_stream_cfg explicit_close_cfg (inl panic_filter_pipe)
+                                            (Reduce RCollect true))) = 0%nat) /\
+  count_close 0 (ro_log (run_stream_cfg explicit_close_cfg
+                           (inl (ZSrc 0 (SScript [EvItem 1; EvPanic; EvItem 2])))
+                           (Reduce (RLast 2) true))) = 0%nat /\
+  count_close 0 (ro_log (run_stream_cfg explicit_close_cfg
+                           (inl (ZSrc 0 (SScript [EvPanic])))
+                           (Reduce ROne true))) = 0%nat.
+Proof.
+  split; [exists 0%nat; vm_compute; auto|]. split; vm_compute; reflexivity.
+Qed.
+
+(* without a panic the variant is indistinguishable: on every normal way out it closes like the
+   defer does *)
+Lemma explicit_close_same {A} (x : ret A sst) :
+  fst (fst x) <> Pan -> explicit_close x = deferred_close x.
+Proof. destruct x as [[o s'] ev]. simpl. intros H. destruct o; try reflexivity. congruence. Qed.
